@@ -19,6 +19,7 @@ import hashlib
 import json
 import multiprocessing
 import os
+import re
 import sys
 import time
 import traceback
@@ -34,6 +35,13 @@ class InvalidCase(Exception):
 
 class HarnessError(Exception):
     pass
+
+
+class SetupFailed(HarnessError):
+    """The library did not do a deterministic, fault-free thing a case builds on (connect to the in-process simulator on a
+    loss-free virtual network, settle after a command, reach quiescence).  On the unchanged tree this never happens; on a
+    changed tree it is the change that did it, so it is reported as a violation of the property under test (signature
+    <ID>|setup|...), not as a harness error."""
 
 
 class Result:
@@ -86,6 +94,11 @@ def guarded_run(mod, case) -> Result:
         res = mod.run_case(case)
     except InvalidCase:
         raise
+    except SetupFailed as exc:
+        res = Result()
+        slug = re.sub(r"[^a-z0-9]+", "-", str(exc).split(":")[0].lower()).strip("-")[:60]
+        res.fail(f"{mod.ID}|setup|{slug}", f"the library failed a fault-free step the case builds on: {exc}")
+        return res
     except HarnessError:
         raise
     except BaseException as exc:  # noqa
